@@ -61,6 +61,8 @@ def job(cfg):
         if len(a) == 1 and isinstance(a[0], str): return str
         return realtype(*a)
     Wd.cvxprog.type = vp_type; Wd.coneprog.type = vp_type
+    for md in (Wd.cvxprog, Wd.coneprog):
+        if isinstance(getattr(md, 'options', None), dict): md.options['show_progress'] = False
     def run_one():
         s = make_symstr(z3, sym, name)
         state['F_calls'] = 0
